@@ -25,6 +25,37 @@ def gen_invalid_targets(tier, rng):
         out.append(history_request(b, cfg, steps))
     return out
 
+HOSTILE_TAILS = [["\r"], ["", "More"], ["\r", "More"], ["   ", "More"], ["\t"], ["More\r", "\r", "Last"], ["\u00a0"], ["\u3000 x"], ["100%", "%s %d %!"],
+                 ["\x00"], ["2020-01-01"], ["    1h"], ["x" * 5000], ["\r\r"], [" \r"], ["a\rb"], ["\x0c"], ["\ufeff"], ["\xff\xfe"], ["More", ""], ["", ""]]
+
+def gen_hostile(tier, rng):
+    """the texts a user passes on the command line (the entry text of track; --summary of start, stop, switch, create, pause)
+       made hostile: carriage returns, CRLF-separated and empty lines, lines of blanks, NUL, form feed, BOM, invalid UTF-8,
+       percent signs, very long lines, lines that look like a date or an indented entry. The command must still either
+       leave a file that parses or refuse and leave the bytes alone."""
+    n = 700 if tier == "quick" else 80000
+    out = []
+    while len(out) < n:
+        doc, cfg, steps = make_history(rng, max_steps=3)
+        touched = False
+        for s in steps:
+            tail = rng.choice(HOSTILE_TAILS)
+            tail = [x.encode("utf-8") if isinstance(x, str) and "\xff" not in x else (b"\xff\xfe" if isinstance(x, str) else x) for x in tail]
+            idx = {"track": 1, "start": 3, "switch": 3, "stop": 3, "create": 2, "pause": 0}[s.kind]
+            if s.args[idx] == "_" and s.kind != "track":
+                if rng.random() < 0.5: continue
+                s.args[idx] = hx(b"text")
+            if s.kind == "pause" and s.args[2] == "1":
+                continue
+            first = rng.choice([b"", b"", b"\r", b" \r", b"\t"])
+            toks = s.args[idx].split(",")
+            toks[-1] = hx(unhx(toks[-1]) + first)
+            s.args[idx] = ",".join(toks + [hx(x) for x in tail])
+            touched = True
+        if touched:
+            out.append(history_request(doc.render(), cfg, steps))
+    return out
+
 def nontrivial(req, out):
     return "fail:" in out or "ok:" in out
 
@@ -34,4 +65,6 @@ def suites():
               rule="histories of 1-6 mutating commands (all six kinds, all date selections, explicit/automatic/rounded times, summaries, --resume/--resume-nth, flag conflicts, non-entry texts) on conforming documents; after every step: success => file parses, failure => bytes unchanged"),
         Suite("invalid-targets", gen_invalid_targets, oracle=oracle_c05, decisive=False, nontrivial=nontrivial,
               rule="the same commands on files with an injected fault or byte mutations (unparseable targets)"),
+        Suite("hostile-arguments", gen_hostile, oracle=oracle_c05, decisive=False, nontrivial=nontrivial, model=False,
+              rule="oracle-only (the model's commands take the texts the command line decoder lets through): histories whose user-supplied texts (track text, --summary) carry carriage returns, empty and blank lines, NUL, form feed, BOM, invalid UTF-8, percent signs, 5000-character lines, date-like and entry-like lines"),
     ]
